@@ -350,6 +350,9 @@ class ContractUse(object):
         names = [a.arg for a in node.args.posonlyargs + node.args.args]
         bound = dict(zip(names, args))
         bound.update(kwargs)
+        declared = set(nm for nm, _ in self.pc.params)
+        if any(nm not in declared for nm in bound):
+            return False        # the call passes an argument this contract does not describe
         for nm, sh in self.pc.params:
             if sh is not None and sh.kind == 'const' and nm in bound:
                 v = bound[nm]
@@ -360,6 +363,9 @@ class ContractUse(object):
                 want = sh.kw['cls']
                 if isinstance(want, type) and isinstance(t, type) and not issubclass(t, want):
                     return False
+                if not isinstance(want, type) and getattr(want, 'kind', None) == 'oneof' and isinstance(t, type):
+                    if t not in want.kw['values']:
+                        return False
         return True
 
     def __call__(self, I, fn, args, kwargs):
